@@ -48,6 +48,7 @@ def read_keys(f: FuncInfo) -> Tuple[Set[str], Set[str]]:
 def run(prog: Program, rep: Report, tier: str) -> None:
     rep.rule('C14-D1', 'writer/reader key agreement: every key the reader subscripts is always written; keys written conditionally are read with .get; every written key is read; Domain/Factor subclasses\' to_json discriminators each have a reader branch constructing that subclass from exactly the other keys it writes, and vice versa')
     rep.rule('C14-D2', 'two-sided index check: a JSON-derived integer used to index the node list reaches the subscript only for 0 <= i < len(list); negative values must reach `raise ValueError` first (an `except IndexError` covers only i >= len)')
+    rep.rule('C14-D3', 'dense interface: the JSON writers (weights_to_json, every to_json, fgg_to_json, hrg_to_json) read weights only through the pattern-aware interface (iteration, float(), tolist(), to_dense(), shape); they never read .physical / .paxes / .vaxes / .default directly (positive control on a synthetic writer)')
     rep.not_decided += ['isomorphism after node renumbering', 'equality of dense weights after the round trip', 'verbatim second round trip']
     pairs = [('hrg_to_json', 'json_to_hrg'), ('fgg_to_json', 'json_to_fgg')]
     for w, r in pairs:
@@ -69,6 +70,7 @@ def run(prog: Program, rep: Report, tier: str) -> None:
     discriminators(rep, prog)
     index_checks(rep, prog)
     persist_id(rep, prog)
+    dense_interface(rep, prog)
 
 
 def _disc_tests(rf: FuncInfo):
@@ -210,3 +212,26 @@ def persist_id(rep: Report, prog: Program) -> None:
         ok = isinstance(v, ast.Call) and isinstance(v.func, ast.Attribute) and v.func.attr == 'get' and v.args and isinstance(v.args[0], ast.Constant) and v.args[0].value == 'id'
         rep.ob(rule, rf.fq(), norm(c)[:100], rf.loc(c), ok, 'id read back with .get(\'id\')' if ok else 'explicit ids are not passed to the constructor')
     rep.floor('C14-D1 explicit-ids reader', n, 2)
+
+
+RAW = {'physical', 'paxes', 'vaxes', 'default'}
+
+
+def raw_reads(tree: ast.AST):
+    return [n for n in ast.walk(tree) if isinstance(n, ast.Attribute) and n.attr in RAW and isinstance(n.ctx, ast.Load)]
+
+
+def dense_interface(rep: Report, prog: Program) -> None:
+    rule = 'C14-D3 dense-interface'
+    ctl = ast.parse("def w(weights):\n    if weights.physical.shape == weights.shape:\n        return weights.physical.tolist()\n    return [x for x in weights]\n")
+    rep.ob(rule, 'positive-control', 'synthetic writer reading .physical is recognised', '-', len(raw_reads(ctl)) == 2, f"{len(raw_reads(ctl))}/2 raw reads matched", nontrivial=False)
+    writers = [prog.func('fggs.factors', 'weights_to_json'), prog.func(FM, 'fgg_to_json'), prog.func(FM, 'hrg_to_json')]
+    for mod, base in (('fggs.domains', 'Domain'), ('fggs.factors', 'Factor')):
+        for c in prog.subclasses(prog.cls(mod, base), strict=True):
+            if 'to_json' in c.methods: writers.append(c.methods['to_json'])
+    for w in writers:
+        raws = raw_reads(w.node)
+        rep.ob(rule, w.fq(), f"{w.qualname} reads weights through the dense interface only", w.loc(), not raws,
+               'no direct access to the physical storage or the axes' if not raws else
+               f"reads `{norm(raws[0])}` at line {raws[0].lineno}: the physical tensor is not the denoted tensor unless the pattern is trivial (same shape does not imply that)")
+    rep.floor('C14-D3 writers', len(writers), 6)
